@@ -31,6 +31,25 @@ Theorem C16_dispatch_type_only : forall d d' r r',
 Proof. exact dispatch_type_only. Qed.
 Print Assumptions C16_dispatch_type_only.
 
+(* ARBITRARY data (not only encodings): whatever record comes back carries exactly the
+   five header bytes of the data - id little-endian, version, type, length - and data
+   shorter than the header never yields a record *)
+Theorem C16_header_any : forall d r, sdr_from_data d = Ok r ->
+  exists d0 d1 d2 d3 d4 rest, d = d0 :: d1 :: d2 :: d3 :: d4 :: rest /\
+    record_hdr r = mkHdr (d0 + 256 * d1) d2 d3 d4.
+Proof. exact header_any. Qed.
+Print Assumptions C16_header_any.
+
+Theorem C16_short_rejected : forall d, (length d < 5)%nat -> exists e, sdr_from_data d = Err e.
+Proof. exact short_rejected. Qed.
+Print Assumptions C16_short_rejected.
+
+(* two in-range records with different exposed attributes never share an encoding *)
+Theorem C16_enc_injective : forall s s', in_range s -> in_range s' ->
+  enc_sdr s = enc_sdr s' -> expected s = expected s'.
+Proof. exact enc_injective. Qed.
+Print Assumptions C16_enc_injective.
+
 (* non-vacuity: an in-range full sensor record with negative M, B, K1, K2, accuracy above
    63, non-zero neighbours of every masked field and a 6-bit packed id string *)
 Example C16_in_range_somewhere :
